@@ -1,6 +1,214 @@
-"""Verus obligations (single-file mode).  Filled in with the Verus units."""
-from common import Undecided
+"""Verus obligations (single-file mode; `cargo verus` cannot resolve vstd offline here).
+
+Three kinds of generated file, rebuilt on every run under WORK/verus/:
+  * dur.rs      = verus/refs.rs with the `//@ ` prefixes stripped and `//-` lines dropped, wrapped in
+                  verus!{}, followed by verus/lemmas_dur.rs            (kinds R and L)
+  * lru.rs      = verus/lru.template.rs with the bodies of the real functions of
+                  /repo/src/function/eviction/lru.rs extracted mechanically and the ghost/invariant lines of
+                  verus/lru.annot spliced in at textual anchors      (kind V)
+  * <lemma>.rs  = verus/lemmas_*.rs as they are                      (kind L)
+"""
+import json
+import os
+import re
+import subprocess
+import time
+
+from common import CACHE, REPO, SCRATCH, VERUS_DIR, WORK, Undecided, dump_json, load_json, log, sha256_bytes
+
+OUT = os.path.join(WORK, "verus")
 
 
-def run_obligations(obs, tree_hash, use_cache=True):
-    return {o["id"]: {"verdict": "undecided", "reason": "verus runner not built yet"} for o in obs}
+# --------------------------------------------------------------------------------------------
+# extraction helpers
+# --------------------------------------------------------------------------------------------
+def extract_fn(src, name, impl_header=None):
+    """Return (signature_text, body_text_without_outer_braces) of `fn name` (inside `impl_header` if given)."""
+    start = 0
+    if impl_header:
+        start = src.find(impl_header)
+        if start < 0:
+            raise Undecided("anchor-lost:verus-extract:%s" % impl_header)
+    m = re.compile(r"\bfn\s+%s\s*(<[^>]*>)?\s*\(" % re.escape(name)).search(src, start)
+    if not m:
+        raise Undecided("anchor-lost:verus-extract:fn %s" % name)
+    i = src.index("{", m.end())
+    sig = " ".join(src[m.start():i].split())
+    depth, j = 0, i
+    while True:
+        c = src[j]
+        if c == "{":
+            depth += 1
+        elif c == "}":
+            depth -= 1
+            if depth == 0:
+                break
+        j += 1
+    return sig, src[i + 1:j]
+
+
+def splice(body, annots, fname):
+    """annots: list of (op, anchor, text). op in after|before. anchor must match exactly one line."""
+    lines = body.split("\n")
+    for op, anchor, text in annots:
+        hits = [k for k, l in enumerate(lines) if anchor in l]
+        if len(hits) != 1:
+            raise Undecided("anchor-lost:verus-annot:%s:%r(%d matches)" % (fname, anchor, len(hits)))
+        k = hits[0]
+        ins = text.split("\n")
+        if op == "loop":
+            head = lines[k].rstrip()
+            if not head.endswith("{"):
+                raise Undecided("anchor-lost:verus-annot:%s:loop header %r does not end in '{'" % (fname, anchor))
+            lines = lines[:k] + [head[:-1].rstrip()] + ins + [" " * (len(head) - len(head.lstrip())) + "{"] + lines[k + 1:]
+        elif op == "after":
+            lines = lines[:k + 1] + ins + lines[k + 1:]
+        else:
+            lines = lines[:k] + ins + lines[k:]
+    return "\n".join(lines)
+
+
+def parse_annot(path):
+    """File format:  ## <fn> | <op> | <anchor>   followed by the lines to insert."""
+    out = {}
+    cur = None
+    with open(path) as f:
+        for line in f:
+            if line.startswith("## "):
+                fn, op, anchor = [p.strip() for p in line[3:].rstrip("\n").split(" | ", 2)]
+                cur = [op, anchor, []]
+                out.setdefault(fn, []).append(cur)
+            elif line.startswith("#--"):
+                continue
+            elif cur is not None:
+                cur[2].append(line.rstrip("\n"))
+    return {fn: [(op, a, "\n".join(t).rstrip("\n")) for op, a, t in v] for fn, v in out.items()}
+
+
+def build_dur():
+    refs = open(os.path.join(VERUS_DIR, "refs.rs")).read().split("\n")
+    out = []
+    for l in refs:
+        if l.rstrip().endswith("//-"):
+            continue
+        s = l.lstrip()
+        if s.startswith(("//@ob", "//@ pre:", "//@ post:", "//@ note:")):
+            out.append(l)
+        elif s.startswith("//@ "):
+            out.append(l[:len(l) - len(s)] + s[4:])
+        elif s == "//@":
+            out.append("")
+        else:
+            out.append(l)
+    lem = open(os.path.join(VERUS_DIR, "lemmas_dur.rs")).read()
+    txt = "use vstd::prelude::*;\nverus! {\n" + "\n".join(out) + "\n" + lem + "\n} // verus!\nfn main() {}\n"
+    p = os.path.join(OUT, "dur.rs")
+    open(p, "w").write(txt)
+    return p
+
+
+def build_lru(repo_src):
+    src_path = os.path.join(repo_src, "src/function/eviction/lru.rs")
+    if not os.path.exists(src_path):
+        raise Undecided("anchor-lost:verus-extract:file-missing:src/function/eviction/lru.rs")
+    src = open(src_path).read()
+    tmpl = open(os.path.join(VERUS_DIR, "lru.template.rs")).read()
+    annots = parse_annot(os.path.join(VERUS_DIR, "lru.annot"))
+    expected_sigs = {}
+    for m in re.finditer(r"//@sig (\w+): (.*)", tmpl):
+        expected_sigs[m.group(1)] = " ".join(m.group(2).split())
+    dropped = []
+    for m in re.finditer(r"@@BODY:(\w+)@@", tmpl):
+        name = m.group(1)
+        sig, body = extract_fn(src, name)
+        if name in expected_sigs and expected_sigs[name] != sig:
+            raise Undecided("anchor-lost:verus-extract:signature of %s changed: %r" % (name, sig))
+        # dropped by the extraction: attributes on the fn (e.g. #[inline]) and the trait-impl header
+        body = splice(body, annots.get(name, []), name)
+        tmpl = tmpl.replace("@@BODY:%s@@" % name, body)
+        dropped.append(name)
+    p = os.path.join(OUT, "lru.rs")
+    open(p, "w").write(tmpl)
+    return p
+
+
+def run_verus(path, rlimit=None, timeout=600):
+    cmd = ["verus", path, "--output-json", "--time"]
+    if rlimit:
+        cmd += ["--rlimit", str(rlimit)]
+    t0 = time.time()
+    try:
+        p = subprocess.run(cmd, cwd=OUT, stdout=subprocess.PIPE, stderr=subprocess.PIPE, text=True, errors="replace", timeout=timeout)
+    except subprocess.TimeoutExpired:
+        return None, "verus timed out after %ds" % timeout, time.time() - t0
+    try:
+        data = json.loads(p.stdout[p.stdout.index("{"):])
+    except Exception:
+        data = None
+    return data, p.stderr, time.time() - t0
+
+
+def run_obligations(obs, tree_hash, use_cache=True, tier="quick"):
+    os.makedirs(OUT, exist_ok=True)
+    results = {}
+    by_file = {}
+    for o in obs:
+        by_file.setdefault(o["verus_file"], []).append(o)
+    for vf, group in by_file.items():
+        if vf == "refs.rs" or vf == "lemmas_dur.rs":
+            path = build_dur()
+        elif vf.startswith("lru"):
+            path = build_lru(SCRATCH if os.path.isdir(os.path.join(SCRATCH, "src")) else REPO)
+        else:
+            path = os.path.join(OUT, vf)
+            open(path, "w").write(open(os.path.join(VERUS_DIR, vf)).read())
+        key = sha256_bytes(open(path, "rb").read())[:24]
+        cpath = os.path.join(CACHE, "verus-" + key + ".json")
+        cached = load_json(cpath) if use_cache else None
+        if cached is not None:
+            data, err, dt, was_cached = cached["data"], cached["err"], cached["dt"], True
+        else:
+            data, err, dt = run_verus(path, rlimit=60 if tier == "thorough" else None)
+            was_cached = False
+        crate = os.path.basename(path)[:-3]
+        per_fn = {}
+        ok_overall = False
+        if data is not None:
+            vr = data.get("verification-results", {})
+            ok_overall = bool(vr.get("success")) and vr.get("errors", 1) == 0
+            for mod in data.get("times-ms", {}).get("smt", {}).get("smt-run-module-times", []):
+                for fb in mod.get("function-breakdown", []):
+                    per_fn[fb["function"]] = fb
+            if ok_overall and not was_cached:
+                dump_json(cpath, {"data": {"verification-results": vr, "times-ms": {"smt": data["times-ms"]["smt"], "total": data["times-ms"].get("total")}}, "err": "", "dt": dt})
+        log("[verus] %s: %s (%.1fs)%s" % (os.path.basename(path), "ok" if ok_overall else "FAILED", dt, " cached" if was_cached else ""))
+        for o in group:
+            fb = None
+            for k, v in per_fn.items():
+                if k == crate + "::" + o["harness_fn"] or k.endswith("::" + o["harness_fn"]):
+                    fb = v
+            res = {"duration_s": (fb or {}).get("time-micros", 0) / 1e6, "checks_total": 1 if fb else 0, "cached": was_cached,
+                   "file_wall_s": round(dt, 2), "rlimit": (fb or {}).get("rlimit")}
+            if data is None:
+                res.update(verdict="undecided", reason="verus produced no result: " + (err or "")[-400:].replace("\n", " | "))
+            elif ok_overall and fb and fb.get("success"):
+                res.update(verdict="discharged")
+            elif ok_overall and not fb:
+                res.update(verdict="undecided", reason="vacuous: verus generated no SMT query for %s" % o["harness_fn"])
+            else:
+                vr = data.get("verification-results", {})
+                msg = (err or "")[-3000:]
+                if vr.get("encountered-vir-error") or "error[E" in msg or "not supported" in msg or "unsupported" in msg:
+                    res.update(verdict="undecided", reason="verus rejected the extracted text: " + msg[-500:].replace("\n", " | "))
+                elif "rlimit" in msg or "Resource limit" in msg or "timed out" in msg:
+                    res.update(verdict="undecided", reason="verus resource limit: " + msg[-300:].replace("\n", " | "))
+                elif fb is not None and fb.get("success"):
+                    res.update(verdict="discharged")
+                elif fb is not None:
+                    first = re.search(r"error: ([^\n]*)", msg)
+                    res.update(verdict="violation", reason="verus: %s in %s" % (first.group(1) if first else "obligation failed", o["harness_fn"]),
+                               output=msg)
+                else:
+                    res.update(verdict="undecided", reason="verus failed elsewhere in the file: " + msg[-300:].replace("\n", " | "))
+            results[o["id"]] = res
+    return results
